@@ -305,6 +305,9 @@ func TestVerifC17Crash(t *testing.T) {
 				res.Count("cut_lines", 1)
 				continue
 			}
+			if m["ev"] == "ViewBusy" || m["ev"] == "EngineBusy" {
+				res.Count("sqlite_busy", 1)
+			}
 			if m["ev"] == "Kill" {
 				hits[fmt.Sprintf("%s/%v", runs[n].Mode, m["at"])]++
 			}
